@@ -3,7 +3,9 @@
 package simrt
 
 import (
+	"reflect"
 	"sort"
+	"strconv"
 
 	"verifsim/sim/kern"
 )
@@ -73,7 +75,7 @@ type Ordered interface {
 // not produce entries deleted before they are reached and it observes values
 // updated during the iteration; unlike Go it does not produce entries added
 // during the iteration (Go may or may not).
-type It[K Ordered, V any] struct {
+type It[K comparable, V any] struct {
 	m    map[K]V
 	keys []K
 	i    int
@@ -92,6 +94,74 @@ func Iter[K Ordered, V any](m map[K]V, site int) *It[K, V] {
 		ks = append(ks, k)
 	}
 	sort.Slice(ks, func(i, j int) bool { return ks[i] < ks[j] })
+	it.keys = permute(ks, site)
+	return it
+}
+
+// IterAny is Iter for key types without a natural order (pointers, structs):
+// the canonical order is that of a shallow fingerprint of the key's value
+// (for a pointer: of the struct it points to), so it is stable across runs.
+func IterAny[K comparable, V any](m map[K]V, site int) *It[K, V] {
+	it := &It[K, V]{m: m}
+	if len(m) == 0 {
+		return it
+	}
+	type kf struct {
+		k K
+		f string
+	}
+	kfs := make([]kf, 0, len(m))
+	for k := range m {
+		kfs = append(kfs, kf{k, shallowPrint(reflect.ValueOf(k), 0)})
+	}
+	sort.SliceStable(kfs, func(i, j int) bool { return kfs[i].f < kfs[j].f })
+	ks := make([]K, len(kfs))
+	for i := range kfs {
+		ks[i] = kfs[i].k
+	}
+	it.keys = permute(ks, site)
+	return it
+}
+
+func shallowPrint(v reflect.Value, depth int) string {
+	if !v.IsValid() || depth > 3 {
+		return "?"
+	}
+	switch v.Kind() {
+	case reflect.Pointer, reflect.Interface:
+		if v.IsNil() {
+			return "nil"
+		}
+		return "&" + shallowPrint(v.Elem(), depth+1)
+	case reflect.Struct:
+		out := "{"
+		for i := 0; i < v.NumField(); i++ {
+			out += shallowPrint(v.Field(i), depth+1) + ","
+		}
+		return out + "}"
+	case reflect.String:
+		return strconv.Quote(v.String())
+	case reflect.Bool:
+		return strconv.FormatBool(v.Bool())
+	case reflect.Int, reflect.Int8, reflect.Int16, reflect.Int32, reflect.Int64:
+		return strconv.FormatInt(v.Int(), 10)
+	case reflect.Uint, reflect.Uint8, reflect.Uint16, reflect.Uint32, reflect.Uint64, reflect.Uintptr:
+		return strconv.FormatUint(v.Uint(), 10)
+	case reflect.Float32, reflect.Float64:
+		return strconv.FormatFloat(v.Float(), 'g', -1, 64)
+	case reflect.Slice, reflect.Array:
+		out := "["
+		for i := 0; i < v.Len() && i < 8; i++ {
+			out += shallowPrint(v.Index(i), depth+1) + ","
+		}
+		return out + "]"
+	case reflect.Map:
+		return "map" + strconv.Itoa(v.Len())
+	}
+	return v.Kind().String()
+}
+
+func permute[K any](ks []K, site int) []K {
 	md := mode(site)
 	count(site, len(ks), md)
 	switch {
@@ -116,8 +186,7 @@ func Iter[K Ordered, V any](m map[K]V, site int) *It[K, V] {
 			ks[i], ks[j] = ks[j], ks[i]
 		}
 	}
-	it.keys = ks
-	return it
+	return ks
 }
 
 // Next advances to the next entry that is still present.
